@@ -59,8 +59,24 @@ def edit_refs_and_recheck(sh, doc, rng, seed):
         return
     m2m = {(d2.tables[r.t1].schema, d2.tables[r.t1].name, d2.tables[r.t2].name) for how, i_, c_, r in order if how != 'inline' and r.kind == '<>'}
     n = 0
+    # a standalone reference over the same endpoints as an inline one is given the inline one's kind: from now on the two
+    # compare equal (equality ignores inline-ness), and they are still two relationships, each with its own foreign key
+    pairs = list(zip(db.refs, order))
+    made_equal = set()
+    for Ra, (how_a, idx_a, col_a, ra) in pairs:
+        if how_a != 'inline':
+            continue
+        for Rb, (how_b, idx_b, col_b, rb) in pairs:
+            if how_b == 'inline' or rb.kind == '<>' or len(Rb.col1) != 1 or id(rb) in made_equal:
+                continue
+            if Rb.col1[0] is Ra.col1[0] and Rb.col2[0] is Ra.col2[0] and Rb.type != Ra.type and rng.random() < 0.7:
+                rb.kind = ra.kind
+                Rb.type = Ra.type
+                made_equal.add(id(rb))
+                n += 1
+                sh.count('obs.references_made_equal_by_edit')
     for R, (how, idx, col, r) in zip(db.refs, order):
-        if how == 'inline' or rng.random() > 0.5:
+        if how == 'inline' or rng.random() > 0.5 or id(r) in made_equal:
             continue
         what = rng.choice(['kind', 'kind', 'inline', 'name', 'actions', 'repoint', 'repoint'])
         if what == 'repoint':
